@@ -72,24 +72,36 @@ type vmCase struct {
 	noTracked bool
 }
 
+// wild: C27 mode — variable values are any typed values (negative amounts, portions outside
+// [0,1], ...): the run may fail, it must not panic.
+var wild = false
+
 func symMonetary(name, asset string) machine.Monetary {
 	a := nondetBig(name)
-	verifAssume(a.Sign() >= 0)
+	if !wild {
+		verifAssume(a.Sign() >= 0)
+	}
 	return machine.Monetary{Asset: machine.Asset(asset), Amount: machine.NewMonetaryIntFromBigInt(a)}
 }
 
 func symNumber(name string) *machine.MonetaryInt {
 	a := nondetBig(name)
-	verifAssume(a.Sign() >= 0)
+	if !wild {
+		verifAssume(a.Sign() >= 0)
+	}
 	return machine.NewMonetaryIntFromBigInt(a)
 }
 
 func symPortion(name string) machine.Portion {
 	n := nondetBig(name + ".num")
 	d := nondetBig(name + ".den")
-	verifAssume(d.Sign() > 0)
-	verifAssume(n.Sign() >= 0)
-	verifAssume(n.Cmp(d) <= 0)
+	if wild {
+		verifAssume(d.Sign() != 0)
+	} else {
+		verifAssume(d.Sign() > 0)
+		verifAssume(n.Sign() >= 0)
+		verifAssume(n.Cmp(d) <= 0)
+	}
 	return machine.Portion{Specific: new(big.Rat).SetFrac(n, d)}
 }
 
@@ -131,6 +143,18 @@ func execCase(c vmCase) (*Machine, *symStore, map[string]machine.Value, error) {
 	if err := m.ResolveBalances(context.Background(), st); err != nil {
 		return m, st, vars, err
 	}
+	if wild {
+		// through Run, as the controller's adapter does: a failure must not hand out a partial result
+		pBefore := m.P
+		res, rerr := Run(m, RunScript{})
+		if rerr != nil {
+			verifAssert("C27:failed-run-returns-no-partial-result", res == nil)
+		} else {
+			verifAssert("C27:successful-run-returns-a-result", res != nil && len(res.Postings) == len(m.Postings))
+			verifAssert("C27:program-counter-advanced", m.P >= pBefore)
+		}
+		return m, st, vars, rerr
+	}
 	err = m.Execute()
 	return m, st, vars, err
 }
@@ -145,6 +169,10 @@ func checkCase(c vmCase) {
 		return
 	}
 	verifReach("success-path")
+	if wild {
+		verifReach("end")
+		return
+	}
 	sum := new(big.Int)
 	// net effect of the postings per (account, asset)
 	net := map[string]map[string]*big.Int{}
